@@ -1060,3 +1060,201 @@ Proof.
          | H : context [if ?b then _ else _] |- _ => destruct b eqn:?
          end; lia.
 Qed.
+
+
+(* ====== load-balancing group: worker, hand-off, members' Accept ====== *)
+
+Record GInv' (p : option nat) (f : nat -> gfate) (th : nat -> option gpc) : Prop := {
+  gi_fate : forall u, f u <> GLost /\ (forall m, f u <> GTaken m);
+  gi_got : forall t u, th t <> Some (GLGot u);
+  gi_arr : forall t, th t = Some GArrive -> f t = GNew;
+  gi_send : forall t, th t = Some GSending ->
+              (p = Some t /\ f t = GPending) \/ (p <> Some t /\ exists m, f t = GHandled m);
+  gi_end : forall t, th t = Some GConnEnd ->
+              f t = GRefused \/ f t = GClosedOnFail \/ exists m, f t = GHandled m;
+  gi_pend : forall u, p = Some u -> th u = Some GSending
+}.
+Definition GInv (s : gst) : Prop := GInv' (gs_pending s) (gs_fate s) (gs_thr s).
+
+Definition side_pc (x : gpc) : Prop :=
+  x = GLRun \/ x = GLEnd \/ x = GC1 \/ x = GC2 \/ x = GCEnd.
+
+Ltac gfin :=
+  repeat match goal with
+  | |- context [Nat.eqb ?a ?b] => let E := fresh "E" in destruct (Nat.eqb_spec a b) as [E|E]; [try (rewrite E in *; clear E)|]
+  | H : context [Nat.eqb ?a ?b] |- _ => let E := fresh "E" in destruct (Nat.eqb_spec a b) as [E|E]; [try (rewrite E in *; clear E)|]
+  end.
+Ltac side H := destruct H as [H|[H|[H|[H|H]]]]; subst.
+
+(* a loop or closer thread moves: nothing about connections changes *)
+Lemma ginv_side p f th t x v : GInv' p f th -> th t = Some x -> side_pc x -> side_pc v ->
+  GInv' p f (upd th t (Some v)).
+Proof.
+  intros [If Ig Ia Is Ie Ip] Et Hx Hv. constructor; auto; unfold upd.
+  - intros t0 u. gfin; [side Hv; discriminate|apply Ig].
+  - intros t0. gfin; [side Hv; discriminate|apply Ia].
+  - intros t0. gfin; [side Hv; discriminate|apply Is].
+  - intros t0. gfin; [side Hv; discriminate|apply Ie].
+  - intros u H. gfin; [|apply Ip; auto]. apply Ip in H. rewrite Et in H. side Hx; discriminate.
+Qed.
+
+(* S1: the socket is closed: refused *)
+Lemma ginv_refused p f th t : GInv' p f th -> th t = Some GArrive ->
+  GInv' p (upd f t GRefused) (upd th t (Some GConnEnd)).
+Proof.
+  intros [If Ig Ia Is Ie Ip] Et. constructor; unfold upd.
+  - intros u. gfin; [split; [discriminate|intros; discriminate]|apply If].
+  - intros t0 u. gfin; [discriminate|apply Ig].
+  - intros t0. gfin; [discriminate|apply Ia].
+  - intros t0. gfin; [discriminate|apply Is].
+  - intros t0. gfin; [auto|apply Ie].
+  - intros u H. gfin; [|apply Ip; auto]. apply Ip in H. congruence.
+Qed.
+
+(* S2: the worker accepts t and stands in the send *)
+Lemma ginv_accept p f th t : GInv' p f th -> p = None -> th t = Some GArrive ->
+  GInv' (Some t) (upd f t GPending) (upd th t (Some GSending)).
+Proof.
+  intros I Hp. subst p. destruct I as [If Ig Ia Is Ie Ip]. intros Et. constructor; unfold upd.
+  - intros u. gfin; [split; [discriminate|intros; discriminate]|apply If].
+  - intros t0 u. gfin; [discriminate|apply Ig].
+  - intros t0. gfin; [discriminate|apply Ia].
+  - intros t0. gfin; [auto|]. intros H. destruct (Is _ H) as [[H1 _]|[_ H2]]; [discriminate|]. right. split; auto. congruence.
+  - intros t0. gfin; [discriminate|apply Ie].
+  - intros u H. inversion H; subst. gfin; congruence.
+Qed.
+
+(* S3: the send meets the closed channel: the worker closes the connection *)
+Lemma ginv_closed_on_fail p f th t : GInv' p f th -> p = Some t -> th t = Some GSending ->
+  GInv' None (upd f t GClosedOnFail) (upd th t (Some GConnEnd)).
+Proof.
+  intros I Hp. subst p. destruct I as [If Ig Ia Is Ie Ip]. intros Et. constructor; unfold upd.
+  - intros u. gfin; [split; [discriminate|intros; discriminate]|apply If].
+  - intros t0 u. gfin; [discriminate|apply Ig].
+  - intros t0. gfin; [discriminate|apply Ia].
+  - intros t0. gfin; [discriminate|]. intros H. destruct (Is _ H) as [[H1 _]|[_ H2]]; [congruence|]. right. split; [discriminate|auto].
+  - intros t0. gfin; [auto|apply Ie].
+  - discriminate.
+Qed.
+
+(* S4: the send has been completed by a receiver *)
+Lemma ginv_sent p f th t : GInv' p f th -> th t = Some GSending -> p <> Some t ->
+  GInv' p f (upd th t (Some GConnEnd)).
+Proof.
+  intros [If Ig Ia Is Ie Ip] Et Np. constructor; auto; unfold upd.
+  - intros t0 u. gfin; [discriminate|apply Ig].
+  - intros t0. gfin; [discriminate|apply Ia].
+  - intros t0. gfin; [discriminate|apply Is].
+  - intros t0. gfin; [|apply Ie]. intros _. destruct (Is _ Et) as [[H1 _]|[_ H2]]; [congruence|auto].
+  - intros u H. gfin; [congruence|apply Ip; auto].
+Qed.
+
+(* S5: member m's Accept receives the pending connection and returns it *)
+Lemma ginv_received p f th u m : GInv' p f th -> p = Some u -> GInv' None (upd f u (GHandled m)) th.
+Proof.
+  intros I Hp. subst p. destruct I as [If Ig Ia Is Ie Ip]. pose proof (Ip u eq_refl) as Eu. constructor; auto; unfold upd.
+  - intros u0. gfin; [split; [discriminate|intros; discriminate]|apply If].
+  - intros t0 H. gfin; [congruence|apply Ia; auto].
+  - intros t0 H. gfin; [right; split; [discriminate|eauto]|].
+    destruct (Is _ H) as [[H1 _]|[_ H2]]; [congruence|]. right. split; [discriminate|auto].
+  - intros t0 H. gfin; [congruence|apply Ie; auto].
+  - discriminate.
+Qed.
+
+Lemma g_init_inv cfg : GInv (g_init cfg).
+Proof.
+  constructor; simpl; try discriminate.
+  - intros u. destruct (nth_error (gc_reqs cfg) u) as [[]|]; split; try discriminate; intros; discriminate.
+  - intros t u. destruct (nth_error (gc_reqs cfg) t) as [[]|]; discriminate.
+  - intros t. destruct (nth_error (gc_reqs cfg) t) as [[]|]; try discriminate; auto.
+  - intros t. destruct (nth_error (gc_reqs cfg) t) as [[]|]; discriminate.
+  - intros t. destruct (nth_error (gc_reqs cfg) t) as [[]|]; discriminate.
+Qed.
+
+Lemma g_step_inv cfg s t : gc_close_on_fail cfg = true -> gc_recheck_drops cfg = false ->
+  GInv s -> GInv (g_step cfg s t).
+Proof.
+  intros Cf Rc I. unfold GInv in *. unfold g_step, g_receive. rewrite Cf, Rc.
+  assert (SD : forall x v, gs_thr s t = Some x -> side_pc x -> side_pc v ->
+               GInv' (gs_pending s) (gs_fate s) (upd (gs_thr s) t (Some v)))
+    by (intros; eapply ginv_side; eauto).
+  case_eq (gs_thr s t); [intros x Et|intros Et; auto]. destruct x; auto.
+  - (* GArrive *)
+    destruct (negb (gs_sock_open s)); simpl; [apply ginv_refused; auto|].
+    case_eq (gs_pending s); [intros u Ep|intros Ep]; simpl; auto. eapply ginv_accept; eauto.
+  - (* GSending *)
+    case_eq (gs_pending s); [intros u Ep|intros Ep]; simpl.
+    + destruct (Nat.eqb_spec u t); subst.
+      * destruct (gs_chclosed s); simpl; auto. eapply ginv_closed_on_fail; eauto.
+      * simpl. apply ginv_sent; auto. congruence.
+    + simpl. apply ginv_sent; auto. congruence.
+  - (* GLRun *)
+    destruct (nth_error (gc_reqs cfg) t) as [[|m|m]|]; auto.
+    assert (E : forall v, side_pc v -> GInv' (gs_pending s) (gs_fate s) (upd (gs_thr s) t (Some v)))
+      by (intros v Hv; eapply SD; eauto; left; auto).
+    case_eq (gs_pending s); [intros u Ep|intros Ep]; simpl.
+    + destruct (gs_chclosed s); simpl; [apply E; right; left; auto|].
+      destruct (gs_closech s m); simpl.
+      * destruct (gc_pick cfg (gs_tick s)); simpl; [eapply ginv_received; eauto|apply E; right; left; auto].
+      * eapply ginv_received; eauto.
+    + destruct (gs_closech s m || gs_chclosed s); simpl; auto. apply E; right; left; auto.
+  - (* GLGot: unreachable *) exfalso. eapply (gi_got _ _ _ I); eauto.
+  - (* GC1 *) destruct (nth_error (gc_reqs cfg) t) as [[|m|m]|]; auto. simpl.
+    eapply SD; eauto; [right; right; left; auto|right; right; right; left; auto].
+  - (* GC2 *) destruct (nth_error (gc_reqs cfg) t) as [[|m|m]|]; auto. simpl.
+    eapply SD; eauto; [right; right; right; left; auto|right; right; right; right; auto].
+Qed.
+
+Lemma g_exec_inv cfg sched : gc_close_on_fail cfg = true -> gc_recheck_drops cfg = false -> GInv (g_exec cfg sched).
+Proof.
+  intros Cf Rc. unfold g_exec, g_run. generalize (g_init_inv cfg). generalize (g_init cfg).
+  induction sched as [|t r IH]; simpl; intros s I; auto. apply IH, g_step_inv; auto.
+Qed.
+
+(* every schedule of arrivals, member closes and member Accepts, every resolution of the ambiguous selects:
+   a connection accepted by the group is never dropped unclosed, and once the worker is through with it, it
+   was refused by the closed socket, closed by the worker, or returned by exactly one member's Accept *)
+Theorem group_conn_never_lost cfg sched u :
+  gc_close_on_fail cfg = true -> gc_recheck_drops cfg = false ->
+  gs_fate (g_exec cfg sched) u <> GLost /\ forall m, gs_fate (g_exec cfg sched) u <> GTaken m.
+Proof. intros Cf Rc. apply (gi_fate _ _ _ (g_exec_inv cfg sched Cf Rc)). Qed.
+
+Theorem group_conn_handled_by_one_or_closed cfg sched u :
+  gc_close_on_fail cfg = true -> gc_recheck_drops cfg = false ->
+  let s := g_exec cfg sched in
+  gs_thr s u = Some GConnEnd ->
+  gs_fate s u = GRefused \/ gs_fate s u = GClosedOnFail \/ exists m, gs_fate s u = GHandled m.
+Proof. intros Cf Rc s. apply (gi_end _ _ _ (g_exec_inv cfg sched Cf Rc)). Qed.
+
+(* a pending connection is resolved by whoever comes next: a member still open receives it; once the channel
+   is closed (last member gone) the worker's own step closes it *)
+Theorem group_pending_progress cfg s u :
+  gc_close_on_fail cfg = true -> gc_recheck_drops cfg = false -> gs_pending s = Some u ->
+  (forall t m, gs_thr s t = Some GLRun -> nth_error (gc_reqs cfg) t = Some (GLoop m) ->
+     gs_chclosed s = false -> gs_closech s m = false -> gs_fate (g_step cfg s t) u = GHandled m) /\
+  (gs_thr s u = Some GSending -> gs_chclosed s = true -> gs_fate (g_step cfg s u) u = GClosedOnFail).
+Proof.
+  intros Cf Rc Ep. split.
+  - intros t m Et Er Hc Hm. unfold g_step, g_receive. rewrite Et, Er, Ep, Hc, Hm, Rc. simpl. unfold upd.
+    rewrite Nat.eqb_refl. auto.
+  - intros Et Hc. unfold g_step. rewrite Et, Ep, Nat.eqb_refl, Hc, Cf. simpl. unfold upd. rewrite Nat.eqb_refl. auto.
+Qed.
+
+(* ====== translator-derived tables (T11send/paths): reflective checkers ====== *)
+From Coq Require Import String.
+
+Definition group_accepts_ok (l : list (string * bool * bool)) : bool :=
+  forallb (fun r => snd (fst r) && snd r) l && Nat.eqb (List.length l) 2.
+
+Definition compress_site_ok (r : string * string * bool * bool * bool) : bool :=
+  let '(_, _, has_results, recycle_ok, joins) := r in negb has_results && recycle_ok && joins.
+
+(* sound once and for all tables: if the checker says true, every listed call site keeps the pooled
+   wrapper inside a function without results, recycles it only by a deferred call or after the Join, and
+   does Join after the wrap — the wrapper cannot outlive the call that recycles it *)
+Lemma compress_sites_sound l : forallb compress_site_ok l = true ->
+  forall f fn r c j, In (f, fn, r, c, j) l -> r = false /\ c = true /\ j = true.
+Proof.
+  intros H f fn r c j Hin. rewrite forallb_forall in H. specialize (H _ Hin). simpl in H.
+  destruct r, c, j; simpl in H; try discriminate; auto.
+Qed.
